@@ -250,7 +250,11 @@ NEGO_MALFORMED = [
     "a;q=1 e3", "a;q= 0.5 ", ";q" * 50, ";q=" * 200, "," * 2000,
     "a;q=0.1," * 300,
 ]
-PARAM_ALPHA = ["a", "B", " ", ";", '"', "\\", "=", ",", "é", "ř"]
+PARAM_ALPHA = ["a", "B", " ", ";", '"', "\\", "=", ",", "é", "ř",
+               # characters whose UTF-8 bytes, read as Latin-1, are "white
+               # space" or "line ends" to str methods (0x85 NEL, 0xA0 NBSP,
+               # 0x1C-0x1F): Å = C3 85, à = C3 A0, х = D1 85, ą = C4 85
+               "\u00c5", "\u00e0", "\u0445", "\u0105", "\u2028", "_"]
 PARAM_MALFORMED = [
     "", ";", ";;;", " ", " ; ; ", '"', '""', '"""', 'a="', 'a="b;c', "=", "==",
     ";=;=", 'x; a="\\\\"; b="c"', 'x; a="\\"; b="c"', 'form-data; a="x\\\\"',
